@@ -150,7 +150,7 @@ func init() {
 	}
 	register(&Prop{
 		ID: "C04sem",
-		Rule: "validation of the trusted JavaScript semantics: generated single-template files of the command fragment of Props/C04d (raw text with quotes, backslashes and HTML-special bytes; prints of int / string / bool expressions with no directive, |id, |noAutoescape, |escapeHtml under the three autoescape settings; let with fresh and SHADOWING names; if/elseif/else; foreach with and without ifempty over list parameters and map fields, for over range(…) with one to three arguments (positive literal step), loop variables shadowing parameters; " +
+		Rule: "validation of the trusted JavaScript semantics: generated single-template files of the command fragment of Props/C04d (raw text with quotes, backslashes and HTML-special bytes; prints of int / string / bool expressions with no directive, |id, |noAutoescape, |escapeHtml under the three autoescape settings; let with fresh and SHADOWING names; if/elseif/else; foreach with and without ifempty over list parameters and map fields, for over range(…) with one to three arguments (positive literal step), switch on ints / strings with labels of both types, loop variables shadowing parameters; " +
 			"expressions: + - * % on small ints, string concatenation, comparisons, same-type equality, and/or/not, ?:, elvis on a nullable, .k / ?.k / [i] accesses, length, isNonnull, floor/ceiling/round/min/max) x 3 data sets (one of them with missing map fields, null and undefined values, empty lists: TypeErrors and ifempty branches); " +
 			"soyjs.Write's statement text and its run in otto versus renderStmts(toCmds) and its run under Spec/JsStmt.execStmts in the driver, from the same data: text byte for byte, and the completion (output string / TypeError) wherever the semantics is not `unspec`; plus hand-written cases; non-trivial = the engine returns a non-empty string or throws",
 		Gen:         genC04sem,
@@ -432,6 +432,39 @@ func (g *semGen) cmd(d int) string {
 		}
 		b.WriteString("{/if}")
 		return b.String()
+	case 9:
+		if g.r.Bool() {
+			break
+		}
+		// {switch} on an int or a string: labels of both types, several per clause, {default} last
+		t := semTy(g.r.Intn(2))
+		var b strings.Builder
+		b.WriteString("{switch " + g.exprOf(t, 1) + "}")
+		for i, n := 0, 1+g.r.Intn(3); i < n; i++ {
+			var labels []string
+			for j, m := 0, 1+g.r.Intn(2); j < m; j++ {
+				switch g.r.Intn(4) {
+				case 0:
+					labels = append(labels, soyQuote(g.text(2), nil))
+				case 1:
+					labels = append(labels, g.exprOf(t, 0))
+				default:
+					if t == semI {
+						labels = append(labels, fmt.Sprintf("%d", g.r.Intn(8)))
+					} else {
+						labels = append(labels, soyQuote(g.text(1), nil))
+					}
+				}
+			}
+			b.WriteString("{case " + strings.Join(labels, ", ") + "}" + g.block(d-1))
+		}
+		if g.r.Bool() {
+			b.WriteString("{default}" + g.block(d-1))
+		}
+		b.WriteString("{/switch}")
+		return b.String()
+	}
+	switch k {
 	case 8:
 		// {for} over a range: one to three arguments, the step a positive literal
 		var args string
@@ -563,6 +596,9 @@ var semHands = []struct{ src, data string }{
 	// range loops: empty, one argument, a step that overshoots, a loop variable shadowing the limit
 	{"{namespace sem}\n/** @param n */\n{template .t}\n{for $i in range($n)}{$i}{/for}|{for $i in range(2, $n)}{$i}{/for}|{for $n in range(1, $n, 3)}{$n},{/for}{$n}\n{/template}\n", "(m (6e (i 8)))"},
 	{"{namespace sem}\n/** @param n */\n{template .t}\n{for $i in range($n)}{$i}{/for}|{for $i in range(2, $n)}{$i}{/for}|{for $n in range(1, $n, 3)}{$n},{/for}{$n}\n{/template}\n", "(m (6e (i 0)))"},
+	// switch: === never coerces; null label; several labels; no default
+	{"{namespace sem}\n/** @param n\n @param s */\n{template .t}\n{switch $n}{case '7'}str{case 7, 8}int{default}d{/switch}{switch $s}{case 7}int{case null}null{case 'a', '7'}s{/switch}|\n{/template}\n", "(m (6e (i 7)) (73 (s 37)))"},
+	{"{namespace sem}\n/** @param n\n @param s */\n{template .t}\n{switch $n}{case '7'}str{case 7, 8}int{default}d{/switch}{switch $s}{case 7}int{case null}null{case 'a', '7'}s{/switch}|\n{/template}\n", "(m (6e (s 37)) (73 (n)))"},
 	// raw text with every escape class
 	{"{namespace sem}\n{template .t}\na'b\"c\\d<e>&f=g{sp}{nil}{\\n}{\\t}{lb}{rb}é \n{/template}\n", "(m)"},
 }
